@@ -361,8 +361,10 @@ func (g *Gen) lineFields(lim Limits, n int) []LineField {
 		key := base + suffix
 		var lit string
 		switch p := g.r.Intn(100); {
-		case p < 55:
+		case p < 43:
 			lit = fmtLit(g.value())
+		case p < 55:
+			lit = g.numericForm()
 		case p < 75:
 			lit = strconv.Itoa(g.r.Intn(1_000_000)-5000) + []string{"i", "u", "I", "U"}[g.r.Intn(4)]
 		case p < 90:
@@ -375,6 +377,26 @@ func (g *Gen) lineFields(lim Limits, n int) []LineField {
 		out = append(out, LineField{Key: key, Lit: lit})
 	}
 	return out
+}
+
+// numericForm returns an unusual spelling of a number. Line protocol integers (i/u suffix) are decimal, optionally signed
+// and zero padded; anything else (base prefixes, underscores, overflow) is not a representable value and the pair is
+// dropped. Floats are decimal with optional sign, exponent, leading or trailing dot.
+func (g *Gen) numericForm() string {
+	suffix := []string{"i", "u", "I", "U"}[g.r.Intn(4)]
+	switch g.r.Intn(5) {
+	case 0: // zero padded, digits 0-7 only
+		return []string{"010", "0012", "00", "0777", "000017", "-0012", "-010", "+010", "01234567"}[g.r.Intn(9)] + suffix
+	case 1: // zero padded with 8 / 9
+		return []string{"08", "0009", "0189", "-0098", "+09", "00080"}[g.r.Intn(6)] + suffix
+	case 2: // random padded / signed decimal
+		n := strconv.Itoa(g.r.Intn(100000))
+		return []string{"", "-", "+"}[g.r.Intn(3)] + strings.Repeat("0", g.r.Intn(4)) + n + suffix
+	case 3: // not decimal: must be dropped
+		return []string{"0x10", "0X1F", "0b11", "0B101", "0o17", "0O7", "1_000", "0_1", "0x_1f", "9223372036854775808", "-9223372036854775809", "--5", "1e3", "1.0"}[g.r.Intn(14)] + suffix
+	}
+	// floats
+	return []string{"1e3", "1E-2", "+1.5", "-.5", ".5", "5.", "1e+06", "-0.0", "+0", "1e999", "-1e999", "1_0.5", "2.5E+3", "00012.50", "-007", "1e-400", "0e0"}[g.r.Intn(17)]
 }
 
 func (g *Gen) simpleFields(lim Limits, n int) []SField {
@@ -425,6 +447,7 @@ var injectionsAll = []string{
 	"too-many-tags", "tags-at-limit", "too-many-fields", "fields-at-limit",
 	"field-name-too-long", "field-name-at-limit", "empty-field-name", "nan", "+inf", "-inf", "ts-zero",
 	"own-namespace", "own-namespace-too-long",
+	"line-ts-zero-padded", "line-ts-zero-padded", "line-ts-plus-sign", "line-ts-not-decimal",
 }
 
 var injectionsBinaryOnly = []string{ // not expressible in line protocol
@@ -682,6 +705,19 @@ func (g *Gen) inject(m *Metric, env *Env, opt genOpt) {
 		}
 	case "ts-zero":
 		m.TS = -1 // marker, resolved by the caller (at most one per batch)
+	case "line-ts-zero-padded", "line-ts-plus-sign", "line-ts-not-decimal":
+		if !opt.LineOK {
+			applied = false
+			break
+		}
+		switch kind {
+		case "line-ts-zero-padded":
+			m.LineTSForm = []string{"pad1", "pad3"}[g.r.Intn(2)]
+		case "line-ts-plus-sign":
+			m.LineTSForm = "plus"
+		default:
+			m.LineTSForm = []string{"hex", "bin", "oct", "underscore"}[g.r.Intn(4)]
+		}
 	case "own-namespace":
 		m.NS = g.str(capOr(lim.NS, 12), 0.2, 0.2, 0)
 		if g.r.Intn(3) == 0 {
